@@ -172,8 +172,9 @@ class InjectionTracker:
 
         new_id = effective_id
         for packet_id in reversed(self.injections):
-            if packet_id > new_id:
-                break
+            # Injected after this packet, didn't affect its ID
+            if packet_id > effective_id:
+                continue
             new_id -= 1
         new_id -= self._injection_base
         if effective_id != new_id:
